@@ -656,22 +656,61 @@ def _check_subs(run, repo, world):
     inv = cb.methods["_invoke"][1]
     h = cb.nested["_callback_handle"]
     unr = h.methods["unregister"][1]
-    body = [unparse(s) for s in reg.body]
-    run.ob("R-SUBS", HID + "._callback.register",
-           body == ["wrapper = self._callback_handle(self)",
-                    "self._callbacks[wrapper] = func", "return wrapper"],
+    from .. import astq
+
+    def nodoc(f):
+        return [s_ for s_ in f.body if not (isinstance(s_, ast.Expr) and
+                                            isinstance(s_.value,
+                                                       ast.Constant))]
+    # register: one store self._callbacks[<fresh handle>] = func, the
+    # handle is returned, nothing else touches the registry
+    fparam = reg.args.args[1].arg
+    stores_ = [(t, n.value) for n in ast.walk(reg) if isinstance(
+        n, ast.Assign) for t in n.targets if isinstance(
+            t, ast.Subscript) and unparse(t.value) == "self._callbacks"]
+    others = [n for n in ast.walk(reg) if isinstance(n, ast.Delete) or (
+        isinstance(n, ast.Call) and isinstance(n.func, ast.Attribute) and
+        unparse(n.func.value) == "self._callbacks")]
+    rets_ = [n.value for n in ast.walk(reg) if isinstance(n, ast.Return)
+             and n.value is not None]
+    okreg = len(stores_) == 1 and not others and len(rets_) == 1
+    if okreg:
+        key, val = stores_[0]
+        rdefs = astq._defs(reg)
+        hname = key.slice.id if isinstance(key.slice, ast.Name) else None
+        okreg = unparse(val) == fparam and hname is not None and \
+            hname in rdefs and unparse(rdefs[hname]) == \
+            "self._callback_handle(self)" and unparse(rets_[0]) == hname
+    run.ob("R-SUBS", HID + "._callback.register", okreg,
            "register must add exactly one entry keyed by a fresh handle",
            where(mod, reg))
+    ub = [unparse(s_) for s_ in nodoc(unr)]
     run.ob("R-SUBS", HID + "._callback._callback_handle.unregister",
-           [unparse(s) for s in unr.body if not isinstance(
-               getattr(s, "value", None), ast.Constant)] ==
-           ["del self._callback._callbacks[self]"],
+           ub in (["del self._callback._callbacks[self]"],
+                  ["self._callback._callbacks.pop(self)"]),
            "unregister must remove exactly its own entry", where(mod, unr))
     loops = [n for n in ast.walk(inv) if isinstance(n, ast.For)]
-    run.ob("R-SUBS", HID + "._callback._invoke",
-           len(loops) == 1 and unparse(loops[0].iter) ==
-           "self._callbacks.values()" and "call_soon(func, self._parent, "
-           "*args)" in ast.unparse(loops[0]),
+    okinv = len(loops) == 1 and astq.canon(inv, loops[0].iter) in (
+        "self._callbacks.values()", "list(self._callbacks.values())",
+        "tuple(self._callbacks.values())") and isinstance(
+            loops[0].target, ast.Name)
+    if okinv:
+        lv = loops[0].target.id
+        calls_ = [c_ for c_ in ast.walk(loops[0]) if isinstance(
+            c_, ast.Call) and astq.canon(inv, c_.func, calls=True) in (
+                "asyncio.get_running_loop().call_soon",
+                "asyncio.get_event_loop().call_soon")]
+        okinv = len(calls_) == 1 and len(calls_[0].args) == 3 and \
+            unparse(calls_[0].args[0]) == lv and unparse(
+                calls_[0].args[1]) == "self._parent" and isinstance(
+                    calls_[0].args[2], ast.Starred)
+        # nothing but "no subscribers" may skip the loop
+        guards = [unparse(n.test) for n in ast.walk(inv)
+                  if isinstance(n, ast.If)]
+        okinv = okinv and all(g in ("not self._callbacks",
+                                    "len(self._callbacks) == 0")
+                              for g in guards)
+    run.ob("R-SUBS", HID + "._callback._invoke", okinv,
            "_invoke must schedule every registered callback with the report",
            where(mod, inv))
     # who else writes _callbacks
